@@ -80,3 +80,27 @@ Section WithKey.
       fold_left (prune_job sn) ms j.
   End Jail.
 End WithKey.
+
+(** The whole life of a queued message as far as pruning is concerned: evidence arrives at any time
+    (Queue.AddEvidence), the relayer reports a failure (Queue.SetErrorData: ignored when error or
+    public-access data is already there) or a delivery (Queue.SetPublicAccessData: ignored when
+    public-access data is already there) -- in any order.  Only AddEvidence touches the evidence
+    list (Gen.C13.evidence_list_written_only_by_add_evidence): nothing ever clears it. *)
+Inductive mop := MEvidence (e : evidence) | MSetError | MSetPublic.
+
+Definition msg_step (m : pmsg) (o : mop) : pmsg :=
+  match o with
+  | MEvidence e => {| pm_public := pm_public m; pm_error := pm_error m; pm_evs := add_evidence (pm_evs m) e |}
+  | MSetError => if pm_error m || pm_public m then m
+                 else {| pm_public := pm_public m; pm_error := true; pm_evs := pm_evs m |}
+  | MSetPublic => if pm_public m then m
+                  else {| pm_public := true; pm_error := pm_error m; pm_evs := pm_evs m |}
+  end.
+
+Definition empty_msg : pmsg := {| pm_public := false; pm_error := false; pm_evs := [] |}.
+Definition msg_of_history (ops : list mop) : pmsg := fold_left msg_step ops empty_msg.
+
+(** the evidence submissions of a history, in order *)
+Definition submissions (ops : list mop) : list evidence :=
+  flat_map (fun o => match o with MEvidence e => [e] | _ => [] end) ops.
+
